@@ -189,8 +189,33 @@ func generate(a *hx.Args, mode string) ([]label, int) {
 				c.parts[pn] = c.tid*100 + int64(k)
 			}
 		}
+		// the collection was dropped upstream while CDC was down (it still exists downstream): every shard handler that resumed
+		// from a position generates the drop-collection message itself
+		var cgens []label
+		if len(c.seek) > 0 && len(c.waitv) == 0 && !lazy && g.wakes == nil && r.Intn(6) == 0 {
+			ok := true
+			ss, ts := append([][2]string{}, c.src...), append([][2]string{}, c.tgt...)
+			sort.Slice(ss, func(a, b int) bool { return ss[a][0] < ss[b][0] })
+			sort.Slice(ts, func(a, b int) bool { return ts[a][0] < ts[b][0] })
+			seenT := map[string]bool{}
+			for j := range ss {
+				if g.handlerTgt[ss[j][1]] != ts[j][1] || seenT[ts[j][1]] || g.handlerSeek[ss[j][1]] == 0 {
+					ok = false
+				}
+				seenT[ts[j][1]] = true
+			}
+			if ok {
+				c.dropped = true
+				for _, p := range c.src {
+					z := g.handlerSeek[p[1]]
+					cgens = append(cgens, label{kind: "feed", virtual: true, c: c, spch: p[1], svch: p[0], begin: z, end: z, nstart: 1,
+						msgs: []smsg{{kind: "dropcoll", id: uint64(c.tid)*1000 + 999, coll: c.id, ts: z, pospch: true}}})
+				}
+			}
+		}
 		g.colls = append(g.colls, c)
-		g.labels = append(g.labels, label{kind: "start", c: c, wakes: g.wakes})
+		g.labels = append(g.labels, label{kind: "start", c: c, wakes: g.wakes, ngen: len(cgens)})
+		g.labels = append(g.labels, cgens...)
 		for _, v := range g.wakes {
 			for _, st := range g.streams {
 				if st.svch == v {
@@ -204,11 +229,14 @@ func generate(a *hx.Args, mode string) ([]label, int) {
 			tsBase = uint64(200 + r.Intn(300)) // the source clock of the late collection lies behind the downstream channel's time
 		}
 		for _, p := range c.src {
+			if c.dropped {
+				break // nothing more is read for a collection whose drop has been delivered
+			}
 			g.streams = append(g.streams, &stream{c: c, svch: p[0], spch: p[1], ts: tsBase, first: true, waiting: c.waitv[p[0]]})
 		}
 		for k := 1; k <= 2; k++ {
 			// (no registration while the collection's handler waits for a channel: AddPartition finds no handler and gives up)
-			if r.Intn(2) == 0 && len(c.waitv) == 0 {
+			if r.Intn(2) == 0 && len(c.waitv) == 0 && !c.dropped {
 				pn := fmt.Sprintf("p%d", k)
 				l := label{kind: "addpart", c: c, pid: c.id*100 + int64(k), pname: pn}
 				// the partition was dropped upstream while CDC was down: each shard handler that resumed from a position
@@ -438,6 +466,21 @@ func corpus(out *cq.Out) {
 			feed(tb, 0, 2000, 2003), feed(ta, 0, 104, 106, ins(2, 105)), feed(tb, 0, 2003, 2004), feed(ta, 0, 106, 107)},
 			"corpus: more downstream than source channels, two source streams on one downstream channel (trace check only)")
 	}
+	// a two-shard collection dropped upstream while CDC was down: the task resumes from saved positions, the catalog lists the
+	// collection as dropped and the downstream still has it: every shard handler generates the drop-collection message: one request
+	c1b := &coll{id: 2, tid: 9002, name: "c2", src: [][2]string{{"src-dml_0_2v0", "src-dml_0"}}, tgt: [][2]string{{"tgt-dml_0_9002v0", "tgt-dml_0"}}, parts: map[string]int64{"_default": 900200}}
+	ib2 := func(id uint64, ts uint64) smsg {
+		return smsg{kind: "insert", id: id, coll: 2, part: 200, pname: "_default", ts: ts, rows: 1}
+	}
+	rc := &coll{id: 1, tid: 9001, name: "c1", src: [][2]string{{"src-dml_0_1v0", "src-dml_0"}, {"src-dml_1_1v1", "src-dml_1"}},
+		tgt: [][2]string{{"tgt-dml_0_9001v0", "tgt-dml_0"}, {"tgt-dml_1_9001v1", "tgt-dml_1"}}, parts: map[string]int64{"_default": 900100},
+		seek: map[string]uint64{"src-dml_0": 50, "src-dml_1": 60}, dropped: true}
+	genc := func(c *coll, sh int, z uint64) label {
+		return label{kind: "feed", virtual: true, c: c, spch: c.src[sh][1], svch: c.src[sh][0], begin: z, end: z, nstart: 1,
+			msgs: []smsg{{kind: "dropcoll", id: uint64(c.tid)*1000 + 999, coll: c.id, ts: z, pospch: true}}}
+	}
+	runCase(out, 1, []label{{kind: "start", c: rc, ngen: 2}, genc(rc, 0, 50), genc(rc, 1, 60), {kind: "start", c: c1b}, feed(c1b, 0, 100, 103, ib2(1, 102))},
+		"corpus: a collection dropped while CDC was down (generated drop-collection messages after resume)")
 	// a two-shard collection dropped: the event only after both shards
 	d := &coll{id: 1, tid: 9001, name: "c1", src: [][2]string{{"src-dml_0_1v0", "src-dml_0"}, {"src-dml_1_1v1", "src-dml_1"}},
 		tgt: [][2]string{{"tgt-dml_0_9001v0", "tgt-dml_0"}, {"tgt-dml_1_9001v1", "tgt-dml_1"}}, parts: map[string]int64{"_default": 900100, "p1": 900101}}
